@@ -1,9 +1,24 @@
 (* C14: exception-faithful models never leave the documented family (ValueError and
-   subclasses, or a library error class) -- one lemma per modelled entry point. *)
-From Coq Require Import NArith List.
-From BU Require Import Base.Exn Base.Bytes Model.Base58.
-From BU Require Lemmas.Base58.
+   subclasses, or a library error class) -- one lemma per modelled entry point.
+
+   This file: the generic combinators every no-escape proof uses, and the text/wire codecs.
+   The other areas are in NoEscapePaths.v, NoEscapeMnem.v, NoEscapeSer.v, NoEscapeEcc.v, NoEscapeAddr.v.
+
+   PATTERN for adding an entry point (f : input -> res A):
+     * if its contributor already proved an error lemma  [f x = Err e -> e = E1 \/ e = E2 ...],
+       the no-escape lemma is   [apply family_of_errs; intros e E; destruct (that_lemma ... E) ...; subst; reflexivity];
+     * otherwise unfold the model and run [fam] (below), which walks through bind / mapM / if / match and leaves
+       exactly the Err sites that are not syntactically in the family (IndexError after a length check, ...),
+       to be shown unreachable by hand;
+     * state it in Props/C14.v by [exact], add the census entry to MODEL_MAP in harness/props/C14.py. *)
+From Coq Require Import NArith ZArith List Bool.
+From BU Require Import Base.Exn Base.Bytes Gen.Consts Gen.CodecConsts Model.Base58 Model.Codecs.
+From BU Require Model.IntBytes Model.Cbor.
+From BU Require Lemmas.Base58 Lemmas.XmrConstsOk Lemmas.IntBytes Lemmas.ConvertBitsOk Lemmas.Base32Ok Lemmas.SS58Ok
+                Lemmas.CborOk.
 Import ListNotations.
+
+(* ------------------------------------------------------------------ generic combinators *)
 
 Lemma in_family_ok {A} (a : A) : in_family (Ok a) = true.
 Proof. reflexivity. Qed.
@@ -18,14 +33,110 @@ Proof.
   - apply H; reflexivity.
 Qed.
 
+(* from an "only these errors" lemma *)
+Lemma family_of_errs {A} (r : res A) :
+  (forall e, r = Err e -> exn_in_family e = true) -> in_family r = true.
+Proof. apply in_family_iff. Qed.
+
+Lemma family_err_inv {A} (r : res A) e : in_family r = true -> r = Err e -> exn_in_family e = true.
+Proof. intros H E. apply (proj1 (in_family_iff r) H e E). Qed.
+
+Lemma fam_bind {A B} (r : res A) (f : A -> res B) :
+  in_family r = true -> (forall a, r = Ok a -> in_family (f a) = true) -> in_family (bind r f) = true.
+Proof. destruct r as [a|e]; simpl; intros H K; [apply K; reflexivity|exact H]. Qed.
+
+Lemma fam_rmap {A B} (g : A -> B) (r : res A) : in_family r = true -> in_family (rmap g r) = true.
+Proof. destruct r; simpl; auto. Qed.
+
+Lemma fam_mapM {A B} (f : A -> res B) l :
+  (forall x, In x l -> in_family (f x) = true) -> in_family (mapM f l) = true.
+Proof.
+  induction l as [|x t IH]; intros H; [reflexivity|].
+  cbn [mapM]. apply fam_bind; [apply H; left; reflexivity|]. intros y _.
+  apply fam_bind; [apply IH; intros z Hz; apply H; right; exact Hz|]. reflexivity.
+Qed.
+
+Lemma fam_of_option {A} (o : option A) e : exn_in_family e = true -> in_family (of_option o e) = true.
+Proof. destruct o; simpl; auto. Qed.
+
+(* the same family with a different carrier: only the error matters *)
+Lemma fam_same_err {A B} (r : res A) (r' : res B) :
+  in_family r = true -> (forall e, r' = Err e -> r = Err e) -> in_family r' = true.
+Proof.
+  intros H K. destruct r' as [b|e]; [reflexivity|]. simpl.
+  specialize (K e eq_refl). subst r. exact H.
+Qed.
+
+(* Walk through a model: bind, mapM, rmap, if, match.  Leaves the Err sites that are not in the family. *)
+Ltac fam_step :=
+  match goal with
+  | |- in_family (Ok _) = true => reflexivity
+  | |- in_family (inl _) = true => reflexivity
+  | |- in_family (Err ?e) = true => reflexivity
+  | |- in_family (inr ?e) = true => reflexivity
+  | H : in_family ?r = true |- in_family ?r = true => exact H
+  | |- in_family (bind _ _) = true => apply fam_bind; [|intros ? ?]
+  | |- in_family (rmap _ _) = true => apply fam_rmap
+  | |- in_family (mapM _ _) = true => apply fam_mapM; intros ? ?
+  | |- in_family (of_option _ _) = true => apply fam_of_option; reflexivity
+  | |- in_family (if ?b then _ else _) = true => destruct b eqn:?
+  | |- in_family (match ?x with _ => _ end) = true => destruct x eqn:?
+  | |- in_family (let '(_, _) := ?x in _) = true => destruct x eqn:?
+  end.
+Ltac fam := repeat fam_step.
+
+(* ------------------------------------------------------------------ Base58 / Base58Check *)
+
 Lemma b58_decode_family alph radix s : in_family (Base58.decode alph radix s) = true.
 Proof.
-  apply in_family_iff. intros e E. rewrite (Lemmas.Base58.decode_err alph radix s e E). reflexivity.
+  apply family_of_errs. intros e E. rewrite (Lemmas.Base58.decode_err alph radix s e E). reflexivity.
 Qed.
 
 Lemma b58_check_decode_family alph radix cklen sha s :
   in_family (Base58.check_decode alph radix cklen sha s) = true.
 Proof.
-  apply in_family_iff. intros e E.
+  apply family_of_errs. intros e E.
   destruct (Lemmas.Base58.check_decode_err alph radix cklen sha s e E) as [->| ->]; reflexivity.
 Qed.
+
+(* ------------------------------------------------------------------ Monero block Base58 *)
+Lemma xmr_decode_family s : in_family (xmr_decode s) = true.
+Proof. apply family_of_errs. intros e E. rewrite (XmrConstsOk.xmr_decode_err s e E). reflexivity. Qed.
+
+(* ------------------------------------------------------------------ hex / binary strings *)
+Lemma hex_decode_family s : in_family (IntBytes.from_hex_string s) = true.
+Proof. apply family_of_errs. intros e E. rewrite (Lemmas.IntBytes.unhexlify_err s e E). reflexivity. Qed.
+
+Lemma int_from_binstr_family s : in_family (IntBytes.int_from_binstr s) = true.
+Proof. apply family_of_errs. intros e E. rewrite (Lemmas.IntBytes.int_from_binstr_err s e E). reflexivity. Qed.
+
+Lemma bytes_from_binstr_family s pad : in_family (IntBytes.bytes_from_binstr s pad) = true.
+Proof. apply family_of_errs. intros e E. rewrite (Lemmas.IntBytes.bytes_from_binstr_err s pad e E). reflexivity. Qed.
+
+(* ------------------------------------------------------------------ Bech32 5 <-> 8 bit regrouping *)
+Lemma from_base32_family l : in_family (from_base32 l) = true.
+Proof. apply family_of_errs. intros e E. rewrite (ConvertBitsOk.from_base32_err l e E). reflexivity. Qed.
+
+Lemma to_base32_family l : in_family (to_base32 l) = true.
+Proof.
+  destruct (ConvertBitsOk.to_base32_total l) as [H1 H2].
+  destruct (ConvertBitsOk.bytes_dec l) as [H|H].
+  - destruct (H1 H) as [x ->]. reflexivity.
+  - rewrite (H2 H). reflexivity.
+Qed.
+
+(* ------------------------------------------------------------------ Base32 *)
+Lemma b32_decode_family s custom : in_family (b32_decode s custom) = true.
+Proof. apply family_of_errs. intros e E. rewrite (Base32Ok.b32_decode_err s custom e E). reflexivity. Qed.
+
+(* ------------------------------------------------------------------ SS58 *)
+Lemma ss58_decode_family (blake2b512 : list N -> list N) s : in_family (ss58_decode blake2b512 s) = true.
+Proof.
+  apply family_of_errs. intros e E.
+  destruct (SS58Ok.ss58_decode_err blake2b512 s e E) as [->| ->]; reflexivity.
+Qed.
+
+(* ------------------------------------------------------------------ CBOR indefinite-length array
+   (the fuel of the item loop is the input length; Lemmas/Cbor.v shows OutOfFuel unreachable) *)
+Lemma cbor_decode_family enc : in_family (cbor_decode enc) = true.
+Proof. apply family_of_errs. intros e E. rewrite (CborOk.cbor_decode_err enc e E). reflexivity. Qed.
